@@ -57,7 +57,24 @@ EXTRACTORS = list(getattr(c18core, "EXTRACTORS", [])) if c18core is not None els
 
 
 def generated_obligations():
-    return getattr(c18core, "generated_obligations", lambda: 0)() if c18core is not None else 0
+    return (getattr(c18core, "generated_obligations", lambda: 0)() if c18core is not None else 0) + _psiter_obligations()
+
+
+# WP iter2: translator/extract_psiter.py pins the literals of PcModel/Iter.lean (smallPrimes / primePi tables, getNextDist /
+# getPrevDist constants, max_n, maxPrime64bits, k-tuplet table) to /repo; obligations PcGen/PsIterObl.lean, built through
+# PcProps/C18Tables.lean
+EXTRACTORS.append("extract_psiter")
+
+
+def _psiter_obligations():
+    import os
+    import sys
+    from .. import core
+    tdir = os.path.join(core.ROOT, "translator")
+    if tdir not in sys.path:
+        sys.path.insert(0, tdir)
+    import extract_psiter
+    return extract_psiter.count_obligations()
 
 
 def _pp(n):
